@@ -19,6 +19,8 @@ func init() {
 			"Holds for every loss point and loss kind because call sites, not executions, are enumerated. NOT decided: promptness in wall-clock terms; nil-pointer panics inside a transport implementation after loss.",
 		Assumptions: []string{"a failing transport reports through its error result", "user callbacks/OnOpen functions are outside the library"},
 		Mutants: []Mutant{
+			{ID: "C06-standard-reads-own-pipe", Desc: "the standard transport reads the session's output through an io.Pipe of its own, which nobody closes", Rule: "C06/pipe-writer-closed",
+				Edits: []Edit{{File: "transport/standard.go", Old: "\tt.reader, err = t.session.StdoutPipe()\n\tif err != nil {\n\t\ta.l.Criticalf(\"error spawning crypto/ssh session stdout pipe, error: %s\", err)\n\n\t\treturn err\n\t}\n", New: "\tpr, pw := io.Pipe()\n\n\tt.session.Stdout = pw\n\tt.session.Stderr = pw\n\tt.reader = pr\n"}}},
 			{ID: "C06-login-reads-all", Desc: "the ssh login loop drains the queue with ReadAll (which does not see the reader's exit)", Rule: "C06/no-blind-consumer",
 				Edits: []Edit{{File: "channel/auth.go", Old: "\t\tnb, err := c.Read()\n", New: "\t\tnb, err := c.ReadAll()\n"}}},
 			{ID: "C06-telnet-conn-nil", Desc: "telnet Open resets its connection to nil after a failed negotiation", Rule: "C06/conn-never-nil",
@@ -64,6 +66,9 @@ func runC06(c *Ctx, r *Report) {
 	checkRepeatCountGuarded(c, r, "C06/repeat-guarded")
 	importFoundation(c, r, "C06", "callbacks")
 	importFoundation(c, r, "C06", "read-loop")
+	importFoundation(c, r, "C06", "chunk-decoder")
+	r.Rule("C06/pipe-writer-closed", "no transport reads device output from an in-process pipe whose write end nobody closes (the end of the stream must reach the reader)", 1)
+	checkPipeWriterClosed(c, r, "C06/pipe-writer-closed")
 	r.Rule("C06/conn-never-nil", "a connection handle of interface type that a transport invokes without a nil test is never reset to nil (a nil store makes the next Close / Write / Read panic instead of failing)", 1)
 	checkConnNeverNil(c, r, "C06/conn-never-nil")
 	r.Rule("C06/loop-error-examined", "a connection operation repeated in a loop has its error examined before the loop calls it again", 4)
